@@ -1537,3 +1537,371 @@ def rule_P28(repo: Repo) -> RuleResult:
         res.ok(core.func("GroupBy._convert_arr_to_pandas_series"), core.func("GroupBy._convert_arr_to_pandas_series").node,
                f"{n} conversions; none is post-processed by .mask / .where", "")
     return res
+
+
+# ------------------------------------------------------------------------------------------------ round-3 rules: S6 S7 S8 W5 Q1 Q2 P29 A13
+
+def rule_S6(repo: Repo) -> RuleResult:
+    """No memo tables on the grouping.  Outside construction and the unifier no method stores INTO a container held by the
+    grouping (`self.x[key] = ..`, `self.x.append(..)`, `self.__dict__[..] = ..`, setdefault / update on them): such a table makes
+    the answer of a call depend on which calls came before (a key that leaves out one input - the kernel, the mask's content -
+    returns another call's answer)."""
+    res = RuleResult("S6", "no method stores into a container attribute of the grouping (memo tables make results history-dependent)")
+    core = repo.mod("groupby.core")
+    n = 0
+    for name, m in core.methods("GroupBy").items():
+        n += 1
+        short = m.name
+        if short in ("__init__", "_unify_group_key_chunks", "_factorize_group_key_in_chunks"):
+            continue
+        for x in walk_no_nested(m.node):
+            tgt = None
+            if isinstance(x, (ast.Assign, ast.AugAssign)):
+                ts = x.targets if isinstance(x, ast.Assign) else [x.target]
+                for t in ts:
+                    b = t
+                    sub = False
+                    while isinstance(b, ast.Subscript):
+                        b = b.value
+                        sub = True
+                    c = attr_chain(b)
+                    if sub and c and c[0] == "self" and len(c) >= 2:
+                        tgt = t
+            if isinstance(x, ast.Call) and isinstance(x.func, ast.Attribute) and x.func.attr in ("append", "extend", "update", "setdefault", "add", "insert", "pop", "clear"):
+                c = attr_chain(x.func.value)
+                if c and c[0] == "self" and len(c) >= 2:
+                    tgt = x
+            if tgt is not None:
+                res.bad(m, tgt, f"{m.qualname}: {norm(tgt)[:80]}",
+                        "a method stores into a container that belongs to the grouping: the stored entry is state that later calls read, so "
+                        "results depend on the history of the object (e.g. a memo keyed without one of the inputs returns another call's answer)")
+    if not res.violations:
+        res.ok(core.func("GroupBy.__init__"), core.func("GroupBy.__init__").node, f"{n} methods: no store into a container attribute of self", "")
+    return res
+
+
+def rule_S7(repo: Repo) -> RuleResult:
+    """The 'labels are already sorted' flag is only ever set from evidence.  self._index_is_sorted may be assigned (a) False,
+    (b) a value computed from `.is_monotonic_increasing` of the labels, (c) the source grouping's flag in the copy constructor,
+    (d) True directly after the WHOLE result index was sorted (`self._result_index = self._result_index.sort_values()` /
+    np.sort / sorted of it as the preceding statement in the same block).  A flag set from the *request* to sort, or after
+    sorting only part of the labels, makes _labels_argsort the identity for labels that are not in order."""
+    res = RuleResult("S7", "_index_is_sorted is set only from evidence (monotonicity test, copy, or a full sort of the result index just before)")
+    core = repo.mod("groupby.core")
+    n = 0
+    for name, m in core.methods("GroupBy").items():
+        blocks = []
+
+        def collect(body):
+            blocks.append(body)
+            for st in body:
+                for fld in ("body", "orelse", "finalbody"):
+                    sub = getattr(st, fld, None)
+                    if isinstance(sub, list) and sub and isinstance(sub[0], ast.stmt) and not isinstance(st, (ast.FunctionDef, ast.ClassDef)):
+                        collect(sub)
+                for h in getattr(st, "handlers", []) or []:
+                    collect(h.body)
+        collect(m.node.body)
+        for body in blocks:
+            for i, st in enumerate(body):
+                if not isinstance(st, ast.Assign):
+                    continue
+                tl = []
+                for t in st.targets:
+                    tl.extend(t.elts if isinstance(t, ast.Tuple) else [t])
+                vl = st.value.elts if isinstance(st.value, ast.Tuple) and len(st.value.elts) == len(tl) else [st.value] * len(tl)
+                for t, v in zip(tl, vl):
+                    if attr_chain(t) != ("self", "_index_is_sorted"):
+                        continue
+                    n += 1
+                    txt = norm(v)
+                    ok = (isinstance(v, ast.Constant) and v.value is False) or "is_monotonic_increasing" in txt or txt.endswith("._index_is_sorted")
+                    if not ok and isinstance(v, ast.Constant) and v.value is True and i > 0:
+                        prev = body[i - 1]
+                        ptxt = norm(prev)
+                        ok = isinstance(prev, ast.Assign) and attr_chain(prev.targets[0]) == ("self", "_result_index") and (
+                            ptxt.replace(" ", "") in ("self._result_index=self._result_index.sort_values()",)
+                            or (isinstance(prev.value, ast.Call) and norm(prev.value.func) in ("np.sort", "sorted") and prev.value.args
+                                and attr_chain(prev.value.args[0]) == ("self", "_result_index")))
+                    construct = f"{m.qualname}: {norm(st)[:70]}"
+                    if ok:
+                        res.ok(m, st, construct, "set from evidence")
+                    else:
+                        res.bad(m, st, construct,
+                                "the flag that makes the label permutation the identity is set without evidence that ALL labels are in order "
+                                "(from the request to sort, or after sorting only a part of the labels): default sort=True results then list "
+                                "their labels in first-appearance / partially sorted order")
+    if n < 2:
+        raise AnalysisError(f"S7: only {n} assignments of _index_is_sorted found (floor 2)")
+    return res
+
+
+def rule_S8(repo: Repo) -> RuleResult:
+    """Representation-dependent caches are read only where the representation is known.  _group_key_lengths and
+    _chunk_offsets are cached when first read; after _unify_group_key_chunks(keep_chunked=False) they still describe the old
+    chunks.  A decision 'is the key chunked?' must therefore be taken from self.key_is_chunked (live), never from the cached
+    lengths or from something sized by them."""
+    res = RuleResult("S8", "whether the key is chunked is decided by self.key_is_chunked, not by the cached chunk lengths")
+    core = repo.mod("groupby.core")
+    STALE = ("_group_key_lengths", "_chunk_offsets")
+    n = 0
+    for name, m in core.methods("GroupBy").items():
+        sized: Set[str] = set()
+        for s in walk_no_nested(m.node):
+            if isinstance(s, ast.Assign) and len(s.targets) == 1 and isinstance(s.targets[0], ast.Name) \
+                    and any(isinstance(a, ast.Attribute) and a.attr in STALE for a in ast.walk(s.value)):
+                sized.add(s.targets[0].id)
+        for i in walk_no_nested(m.node):
+            if not isinstance(i, (ast.If, ast.IfExp, ast.While)):
+                continue
+            t = i.test
+            uses = [x for x in ast.walk(t) if (isinstance(x, ast.Attribute) and x.attr in STALE) or (isinstance(x, ast.Name) and x.id in sized)]
+            if not uses:
+                continue
+            lens = [c for c in ast.walk(t) if isinstance(c, ast.Call) and norm(c.func) == "len" and c.args and any(u is c.args[0] or any(u is y for y in ast.walk(c.args[0])) for u in uses)]
+            if lens and any(isinstance(c, ast.Compare) for c in ast.walk(t)):
+                n += 1
+                res.bad(m, i, f"{m.qualname}: if {norm(t)[:70]}",
+                        "a branch is chosen by the number of cached key chunks: after the key was unified on this object the cached lengths are "
+                        "stale, so a reused grouping takes the chunked route with a key that is one array (results depend on history)")
+    if not res.violations:
+        res.ok(core.func("GroupBy._resolve_mask_argument_into_chunks"), core.func("GroupBy._resolve_mask_argument_into_chunks").node,
+               "no branch is decided by the cached chunk lengths", "")
+    return res
+
+
+def rule_W5(repo: Repo) -> RuleResult:
+    """Null tests in dtype-generic kernels.  The rolling / cumulative kernels receive temporal data as int64 views whose null is
+    the integer sentinel, and a `null_value` of the value dtype; np.isnan is false for every integer, so a null test on a value
+    (an element of the input or of a buffer that holds inputs) must be is_null(..), never np.isnan(..) / x != x."""
+    res = RuleResult("W5", "dtype-generic kernels test values for null with is_null, never with np.isnan")
+    nb = repo.mod("groupby.numba")
+    n = 0
+    for f in nb.functions.values():
+        if not f.is_njit or "null_value" not in f.named_params:
+            continue
+        for c in walk_no_nested(f.node):
+            if isinstance(c, ast.Call) and norm(c.func) in ("np.isnan", "numpy.isnan", "math.isnan", "isnan"):
+                n += 1
+                res.bad(f, c, f"{f.qualname}: {norm(c)}",
+                        "np.isnan in a kernel that is also run on int64 views of temporal data (null = integer sentinel): the test is never "
+                        "true there, so a NaT is treated as a number (e.g. subtracted from the running sum when it leaves the window)")
+            if isinstance(c, ast.Call) and norm(c.func) == "is_null":
+                n += 1
+                res.ok(f, c, f"{f.qualname}: {norm(c)}", "", nontrivial=False)
+    if n < 4:
+        raise AnalysisError(f"W5: only {n} null tests found in the dtype-generic kernels (floor 4)")
+    return res
+
+
+def rule_Q1(repo: Repo) -> RuleResult:
+    """Polars dtypes are compared with ==, never with `is`: `series.dtype` is an instance, `pl.Categorical` the class, so
+    `dtype is pl.Categorical` is always False."""
+    res = RuleResult("Q1", "polars dtypes are compared by equality, not identity")
+    n = 0
+    for mod in repo.modules.values():
+        for f in mod.functions.values():
+            for c in walk_no_nested(f.node):
+                if isinstance(c, ast.Compare) and len(c.ops) == 1:
+                    r = attr_chain(c.comparators[0])
+                    if r and len(r) == 2 and r[0] == "pl" and r[1][:1].isupper() and "dtype" in norm(c.left):
+                        n += 1
+                        if isinstance(c.ops[0], (ast.Is, ast.IsNot)):
+                            res.bad(f, c, f"{f.qualname}: {norm(c)}",
+                                    "identity comparison of a polars dtype instance with the dtype class is always False: the branch for this "
+                                    "dtype (e.g. category order of polars Categorical keys) is never taken")
+                        else:
+                            res.ok(f, c, f"{f.qualname}: {norm(c)}", "", nontrivial=False)
+    if n < 3:
+        raise AnalysisError(f"Q1: only {n} polars dtype comparisons found (floor 3)")
+    return res
+
+
+def rule_Q2(repo: Repo) -> RuleResult:
+    """Defaults of numeric parameters are chosen with `x if x is not None else d`, never with `x or d`: 0 is a legitimate
+    value of min_periods / n / ddof / window and is falsy."""
+    res = RuleResult("Q2", "numeric parameters are defaulted by an `is None` test, not by truthiness (`x or default`)")
+    NUM = {"min_periods", "window", "n", "ddof", "n_threads", "precision", "periods", "q", "alpha", "halflife", "min_count"}
+    n = 0
+    for modname in ("groupby.api", "groupby.core", "groupby.numba", "emas", "nanops", "util"):
+        for f in repo.mod(modname).functions.values():
+            params = set(f.named_params) & NUM
+            if not params:
+                continue
+            for b in walk_no_nested(f.node):
+                if isinstance(b, ast.BoolOp) and isinstance(b.op, ast.Or) and isinstance(b.values[0], ast.Name) and b.values[0].id in params:
+                    par = None
+                    # used as a value (assigned / passed), not as a branch test
+                    tests = {id(x.test) for x in walk_no_nested(f.node) if isinstance(x, (ast.If, ast.IfExp, ast.While))}
+                    if id(b) in tests:
+                        continue
+                    n += 1
+                    res.bad(f, b, f"{f.qualname}: {norm(b)}",
+                            f"`{b.values[0].id} or ..` replaces a legitimate 0 by the default: the parameter must be defaulted with an `is None` test")
+            for e in walk_no_nested(f.node):
+                if isinstance(e, ast.IfExp) and isinstance(e.test, ast.Compare) and isinstance(e.test.left, ast.Name) and e.test.left.id in params \
+                        and isinstance(e.test.ops[0], (ast.Is, ast.IsNot)):
+                    n += 1
+                    res.ok(f, e, f"{f.qualname}: {norm(e)[:70]}", "", nontrivial=False)
+    if not res.violations and n == 0:
+        res.ok(repo.func("groupby.api", "BaseGroupByRolling.__init__"), repo.func("groupby.api", "BaseGroupByRolling.__init__").node, "no truthiness default of a numeric parameter", "", nontrivial=False)
+    return res
+
+
+def rule_P29(repo: Repo) -> RuleResult:
+    """Row selection keeps the input's labels.  In _get_row_selection, with keep_input_index the selected rows are labelled by
+    taking the positions from the inputs' common index whenever there is one (an offset / stepped RangeIndex of a row slice is
+    an index like any other); positions themselves are labels only when the inputs carry no index."""
+    res = RuleResult("P29", "head/tail/nth: selected rows keep the labels of the inputs' index whenever there is one")
+    f = repo.func("groupby.core", "GroupBy._get_row_selection")
+    n = 0
+    for t in walk_no_nested(f.node):
+        if isinstance(t, (ast.If, ast.IfExp)) and any(isinstance(c, ast.Call) and norm(c.func) == "isinstance" and len(c.args) == 2
+                                                       and "RangeIndex" in norm(c.args[1]) for c in ast.walk(t.test)):
+            n += 1
+            res.bad(f, t, f"_get_row_selection: {norm(t.test)[:80]}",
+                    "the labels of the selected rows depend on whether the input index is a RangeIndex: a row slice of a longer object "
+                    "(offset / stepped RangeIndex) comes back labelled 0, 1, 2, .. instead of with its own labels")
+    takes = [x for x in walk_no_nested(f.node) if (isinstance(x, ast.Subscript) and "index" in norm(x.value).lower() and "iloc" in norm(x.slice))
+             or (isinstance(x, ast.Call) and isinstance(x.func, ast.Attribute) and x.func.attr == "take" and "index" in norm(x.func.value).lower())]
+    if takes:
+        res.ok(f, takes[0], f"_get_row_selection: {norm(takes[0])[:70]}", "labels taken from the inputs' index by position")
+    elif not res.violations:
+        raise AnalysisError("P29: the positional take of the input index in _get_row_selection is not found")
+    return res
+
+
+def rule_A13(repo: Repo) -> RuleResult:
+    """Facade delegations add no policy of their own.  (a) A facade method passes a CONSTANT for a parameter of the engine
+    method only if the facade has no parameter of that name and the constant equals the engine's default - otherwise facade
+    and engine (and pandas) disagree (skip_na=False poisons cumulative results after a null).  (b) Iteration yields rows of the
+    whole grouped object (`self._obj.iloc[..]`), not of the value columns (key columns would be dropped)."""
+    res = RuleResult("A13", "facade: constants passed to the engine equal its defaults; iteration yields rows of the whole object")
+    api = repo.mod("groupby.api")
+    core = repo.mod("groupby.core")
+    engine = {q.split(".", 1)[1]: f for q, f in core.functions.items() if q.startswith("GroupBy.") and q.count(".") == 1}
+    n = 0
+    for f in api.functions.values():
+        for c in walk_no_nested(f.node):
+            if not (isinstance(c, ast.Call) and isinstance(c.func, ast.Attribute)):
+                continue
+            ch = attr_chain(c.func)
+            if not (ch and ch[:2] == ("self", "_grouper") and len(ch) == 3 and ch[2] in engine):
+                continue
+            callee = engine[ch[2]]
+            a = callee.node.args
+            names = [x.arg for x in a.args]
+            defaults = dict(zip(names[len(names) - len(a.defaults):], a.defaults))
+            defaults.update({x.arg: d for x, d in zip(a.kwonlyargs, a.kw_defaults) if d is not None})
+            for k in c.keywords:
+                if k.arg is None or not isinstance(k.value, ast.Constant) or k.arg not in defaults:
+                    continue
+                n += 1
+                d = defaults[k.arg]
+                construct = f"{f.qualname} -> GroupBy.{ch[2]}({k.arg}={norm(k.value)})"
+                if isinstance(d, ast.Constant) and d.value == k.value.value and type(d.value) is type(k.value.value):
+                    res.ok(f, c, construct, "the engine's default", nontrivial=False)
+                elif k.arg in f.named_params:
+                    res.bad(f, c, construct, f"the facade's own parameter {k.arg!r} is replaced by a constant")
+                else:
+                    res.bad(f, c, construct,
+                            f"the facade fixes {k.arg}={norm(k.value)} although the engine's default is {norm(d)}: facade and engine (and pandas) "
+                            f"give different results for the same call")
+    it = api.functions.get("BaseGroupBy.__iter__")
+    if it is None:
+        raise AnalysisError("A13: BaseGroupBy.__iter__ not found")
+    subs = [x for x in ast.walk(it.node) if isinstance(x, ast.Subscript) and isinstance(x.value, ast.Attribute) and x.value.attr == "iloc"]
+    if not subs:
+        raise AnalysisError("A13: positional row selection in BaseGroupBy.__iter__ not found")
+    for x in subs:
+        base = attr_chain(x.value.value)
+        if base == ("self", "_obj"):
+            res.ok(it, x, f"__iter__: {norm(x)[:60]}", "rows of the whole grouped object")
+        else:
+            res.bad(it, x, f"__iter__: {norm(x)[:60]}",
+                    "iteration yields rows of something other than the grouped object itself: with keys given as column names the value "
+                    "columns exclude the key columns, which silently disappear from every yielded sub-frame")
+    return res
+
+
+def rule_O3(repo: Repo) -> RuleResult:
+    """Deny-list of NumPy's permissions to destroy an argument: `overwrite_input=` (median / percentile / quantile) is never
+    given anything but False anywhere in the package.  The per-group arrays handed to user functions and reducers may be views
+    of the caller's arrays (a contiguous slice needs no copy), so scrambling them in place reaches the caller's data."""
+    res = RuleResult("O3", "overwrite_input= is never enabled (NumPy would partially sort an array that may be a view of the caller's data)")
+    n = 0
+    for mod in repo.modules.values():
+        for f in mod.functions.values():
+            for c in ast.walk(f.node):
+                if isinstance(c, ast.Call):
+                    for k in c.keywords:
+                        if k.arg == "overwrite_input":
+                            n += 1
+                            if isinstance(k.value, ast.Constant) and k.value.value is False:
+                                res.ok(f, c, f"{f.qualname}: {norm(c)[:70]}", "", nontrivial=False)
+                            else:
+                                res.bad(f, c, f"{f.qualname}: {norm(c)[:70]}",
+                                        "NumPy is allowed to reorder its input in place; the array may be a view of a caller's array "
+                                        "(e.g. one group's contiguous block), so the caller's data comes back partially sorted")
+    if n == 0:
+        res.ok(repo.func("groupby.core", "GroupBy.median"), repo.func("groupby.core", "GroupBy.median").node, "overwrite_input is not used", "", nontrivial=False)
+    return res
+
+
+def rule_K4c(repo: Repo) -> RuleResult:
+    """Typed dictionaries that are keyed by combined codes use 64-bit integers: `Dict.empty(key_type, value_type)` with a
+    narrower integer type truncates the weighted code sums of large multi-key groupings on every lookup."""
+    res = RuleResult("K4c", "numba typed dictionaries for combined codes are 64-bit")
+    n = 0
+    for mod in repo.modules.values():
+        for f in mod.functions.values():
+            for c in walk_no_nested(f.node):
+                if isinstance(c, ast.Call) and norm(c.func).endswith("Dict.empty"):
+                    n += 1
+                    types = [norm(a) for a in c.args] + [norm(k.value) for k in c.keywords]
+                    narrow = [t for t in types if any(w in t for w in ("int32", "int16", "int8", "uint32", "uint16", "uint8"))]
+                    if narrow:
+                        res.bad(f, c, f"{f.qualname}: {norm(c)[:70]}",
+                                f"the typed dictionary is declared with {narrow}: combined codes beyond that width are truncated, so two key "
+                                f"combinations whose weighted sums differ by a multiple of 2**32 fall into one group")
+                    else:
+                        res.ok(f, c, f"{f.qualname}: {norm(c)[:70]}", "64-bit keys and values")
+    if n < 1:
+        raise AnalysisError("K4c: no typed dictionary found (floor 1)")
+    return res
+
+
+def rule_D9c(repo: Repo) -> RuleResult:
+    """Positions on chunked keys go through the whole key.  In _resolve_mask_argument_into_chunks, on every path where the key
+    is chunked and the mask is a positional one (given, not boolean, not a slice) the key chunks are unified and the positions
+    are handed on as ONE piece: dealing them to the key chunks keeps how often a row was named but not the order in which rows
+    of different chunks were named, which first / last depend on."""
+    res = RuleResult("D9c", "positional masks on chunked keys: the key is unified and the positions stay in one piece")
+    f = repo.func("groupby.core", "GroupBy._resolve_mask_argument_into_chunks")
+    n = 0
+    for p in enumerate_paths(f.node.body, limit=60000, split_bool=True):
+        if p.exit == "raise" or infeasible(p):
+            continue
+        chunked = any(norm(t) == "self.key_is_chunked" and pol is True for t, pol in p.conds if isinstance(t, ast.AST))
+        given = any(isinstance(t, ast.Compare) and norm(t.left) == "mask" and norm(t.comparators[0]) == "None"
+                    and ((isinstance(t.ops[0], ast.IsNot) and pol is True) or (isinstance(t.ops[0], ast.Is) and pol is False))
+                    for t, pol in p.conds if isinstance(t, ast.AST))
+        is_slice = any(isinstance(t, ast.Call) and norm(t.func) == "isinstance" and "slice" in norm(t) and pol is True for t, pol in p.conds if isinstance(t, ast.AST))
+        boolean = any(_establishes_boolean(f, t, pol, {"mask"}, none_counts=False) for t, pol in p.conds if isinstance(t, ast.AST))
+        nonbool = any(_establishes_boolean(f, t, (not pol), {"mask"}, none_counts=False) for t, pol in p.conds if isinstance(t, ast.AST)) and not boolean
+        if not (chunked and given and nonbool and not is_slice):
+            continue
+        n += 1
+        unified = any(isinstance(c, ast.Call) and (call_name(c) or norm(c.func)).endswith("_unify_group_key_chunks") for st in p.stmts for c in ast.walk(st))
+        whole = any(isinstance(st, ast.Assign) and isinstance(st.value, ast.List) and len(st.value.elts) == 1 and norm(st.value.elts[0]) == "mask" for st in p.stmts)
+        desc = p.describe()[:90]
+        if unified and whole:
+            res.ok(f, f.node, f"positional mask on a chunked key: unified, [mask] on {desc}", "")
+        else:
+            res.bad(f, f.node, f"positional mask on a chunked key on {desc}: unified={unified}, one piece={whole}",
+                    "integer positions given for a chunked key are not applied to the key as one array: dealt to the key chunks they lose the "
+                    "order in which rows of different chunks were named (first / last then follow chunk order), and a boolean scatter also "
+                    "loses repeats", path=p.describe())
+    if n < 1:
+        raise AnalysisError("D9c: no path for a positional mask on a chunked key found in _resolve_mask_argument_into_chunks")
+    return res
